@@ -85,10 +85,12 @@ pub fn seq_cfg(focus: &'static str, seed: u64, index: u64, clean_only: bool) -> 
     // no-pressure budget: every key may demand up to cap (+24 for a TTL entry); C03 keeps the budget tight so that
     // weight that is wrongly kept charged soon turns into (forbidden) eviction or rejection
     let lenient_weights = focus == "C03";
-    let cap: i64 = if lenient_weights { rng.range(64, 195) as i64 } else { 195 };
+    // now and then the weights are in the range of tens of gigabytes (beyond 32 bits), the cache correspondingly large
+    let huge = !pressure && matches!(focus, "C01" | "C03" | "C05" | "C08" | "C16") && rng.chance(1, 6);
+    let cap: i64 = if huge { (1i64 << 34) + rng.range(0, 1000) as i64 } else if lenient_weights { rng.range(64, 195) as i64 } else { 195 };
     let max_weight = if pressure {
         match weight_mode { WeightMode::Default => rng.range(100, 400) as i64, WeightMode::Custom => rng.range(30, 120) as i64 }
-    } else if focus == "C03" && index % 3 == 0 { n_keys as i64 * (cap + 24) } else if lenient_weights { n_keys as i64 * (cap + 24) + 3 * 4 * 5 + rng.range(0, 30) as i64 } else { (n_keys as i64 + 1) * 220 };
+    } else if focus == "C03" && index % 3 == 0 { n_keys as i64 * (cap + 24) } else if lenient_weights { n_keys as i64 * (cap + 24) + 3 * 4 * 5 + rng.range(0, 30) as i64 } else { (n_keys as i64 + 1) * (cap + 25) };
     // C17: now and then an "unbounded" cache, where sums of weights come close to the integer range
     let max_weight = if focus == "C17" && rng.chance(1, 6) { *rng.pick(&[i64::MAX, i64::MAX / 2 + 1, 1i64 << 62]) } else { max_weight };
     let tick = if focus == "C09" && rng.chance(1, 3) { Duration::from_secs(3600) } else { Duration::from_millis(1) };
